@@ -83,7 +83,7 @@ class Driver:
         e = dict(os.environ)
         if env:
             e.update(env)
-        quiet = "asan" in os.path.basename(exe) and not os.environ.get("XDRV_KEEP_STDERR")
+        quiet = ("asan" in os.path.basename(exe) or "msan" in os.path.basename(exe)) and not os.environ.get("XDRV_KEEP_STDERR")
         self.p = subprocess.Popen([exe], stdin=subprocess.PIPE, stdout=subprocess.PIPE, env=e, bufsize=0, stderr=subprocess.DEVNULL if quiet else None)
         self.lock = threading.Lock()
 
@@ -112,8 +112,11 @@ class Driver:
                 bl, = struct.unpack("<I", self._read(4))
                 blob = self._read(bl) if bl else b""
             except (BrokenPipeError, DriverDied) as ex:
+                alive = self.p.poll() is None
+                if alive:                      # protocol error with the driver still running: never wait for it (it may be blocked writing to us)
+                    self.p.kill()
                 rc = self.p.wait()
-                raise DriverDied("driver died rc=%s (%s)" % (rc, ex))
+                raise DriverDied("driver %s rc=%s (%s: %s)" % ("killed after protocol error," if alive else "died", rc, type(ex).__name__, ex))
         return recs, blob
 
     def _read(self, n):
@@ -153,7 +156,7 @@ class Xrl:
         extra = ["-no-pie"]
         if variant == "plain":
             extra += ["-DXDRV_TRACK"]
-        if variant == "asan":
+        if variant in ("asan", "msan"):
             extra += ["-DXDRV_SAN"]
         h = os.path.join(VERIF, "harness")
         if sections:
@@ -165,6 +168,8 @@ class Xrl:
             if not ld:
                 raise RuntimeError("no locale fixture")
             self.env.update(LOCPATH=ld, XDRV_LOCALE=locale)
+        if variant == "msan":
+            self.env.setdefault("MSAN_OPTIONS", "halt_on_error=0:exit_code=0:print_stats=0")
         if variant == "asan":
             self.env.setdefault("ASAN_OPTIONS", "halt_on_error=0:detect_leaks=0:abort_on_error=0:print_summary=0")
             self.env.setdefault("UBSAN_OPTIONS", "halt_on_error=0:print_stacktrace=1")
@@ -254,14 +259,16 @@ class Xrl:
                     blobs.append(b"\n".join(ls) + b"\n")
         return recs, b"".join(blobs)
 
-    def define_crystals(self, specs):
-        """specs: list of 'name a b c alpha beta gamma volume natom  Z frac x y z ...'; returns their driver indices (1000+k), valid in every driver process"""
-        base = 1000 + sum(r[3] for r in self.preamble if r[1] == "defcrystal")
+    def define_crystals(self, specs, via_array=False):
+        """specs: list of 'name a b c alpha beta gamma volume natom  Z frac x y z ...'; returns their driver indices (1000+k), valid in every driver process.
+        via_array: the crystals go through Crystal_AddCrystal into a user array and are fetched back with Crystal_GetCrystal (public path)"""
+        opn = "addcrystal_def" if via_array else "defcrystal"
+        base = 1000 + sum(r[3] for r in self.preamble if r[1] in ("defcrystal", "addcrystal_def"))
         cols, pool, n = self._prep("s", [specs])
-        self.preamble.append((1, "defcrystal", 0, n, cols, pool))
+        self.preamble.append((1, opn, 0, n, cols, pool))
         for d in self.drivers:
             if d is not None and d.p.poll() is None:
-                d.request(1, "defcrystal", 0, n, cols, pool)
+                d.request(1, opn, 0, n, cols, pool)
         return list(range(base, base + n))
 
     def call(self, name, *args, mode=0, blob=False):
